@@ -4,6 +4,8 @@ package bug
 import (
 	"fmt"
 
+	"github.com/pkg/errors"
+
 	"github.com/MichaelMure/git-bug/entities/common"
 	"github.com/MichaelMure/git-bug/entities/identity"
 	"github.com/MichaelMure/git-bug/entity"
@@ -105,6 +107,25 @@ func (bug *Bug) Validate() error {
 		}
 	}
 
+	return nil
+}
+
+// Commit write the appended operations in the repository.
+// The bug is checked with the same rules as when it is read or merged (Bug.Validate, not only
+// the generic rules of dag.Entity): what is committed can be read back and pulled by others.
+func (bug *Bug) Commit(repo repository.ClockedRepo) error {
+	if err := bug.Validate(); err != nil {
+		return errors.Wrapf(err, "can't commit a %s with invalid data", Typename)
+	}
+	return bug.Entity.Commit(repo)
+}
+
+// CommitAsNeeded execute a Commit only if necessary. This function is useful to avoid getting an error if the Bug
+// is already in sync with the repository.
+func (bug *Bug) CommitAsNeeded(repo repository.ClockedRepo) error {
+	if bug.NeedCommit() {
+		return bug.Commit(repo)
+	}
 	return nil
 }
 
